@@ -92,6 +92,100 @@ def impl_function_signal(times, values, filters):
     return np.array(fs.values, dtype=float)
 
 
+STORED_MODES = ["complex128-array", "complex128-view", "float64-array", "list-of-complex", "list-of-float"]
+
+
+class StoredResponse:
+    """A response that keeps what it returns: gains tabulated / memoised per frequency array, handed out again
+    on every later call (complex128 array, a view into a larger table, float64 array, Python lists).  As a
+    function of frequency it is exactly py_response(kind, p) - a pure function - so every application must give
+    what the model gives for that pure function, however often the same object has been used before, and the
+    stored tables must come back unmodified."""
+    def __init__(self, kind, p, mode):
+        self.kind, self.p, self.mode = kind, tuple(p), mode
+        self.base = py_response(kind, *p)
+        self.store, self.pristine, self.calls = {}, {}, 0
+        self.__name__ = "stored_response[%s]" % mode
+
+    def __call__(self, f):
+        self.calls += 1
+        f = np.asarray(f, dtype=float)
+        if f.ndim == 0:
+            return complex(np.asarray(self.base(np.array([float(f)])), dtype=complex)[0])
+        key = f.tobytes()
+        if key not in self.store:
+            v = np.array(self.base(f), dtype=np.complex128)
+            if self.mode == "complex128-array":
+                t = v.copy()
+            elif self.mode == "complex128-view":
+                big = np.zeros(2 * len(v) + 3, dtype=np.complex128)
+                big[1:len(v) + 1] = v
+                t = big[1:len(v) + 1]
+            elif self.mode == "float64-array":
+                t = v.real.copy()
+            elif self.mode == "list-of-complex":
+                t = [complex(z) for z in v]
+            else:
+                t = [float(z.real) for z in v]
+            self.store[key] = t
+            self.pristine[key] = np.array(t, dtype=np.complex128).copy()
+        return self.store[key]
+
+    def unmodified(self):
+        return all(np.array_equal(np.array(self.store[k], dtype=np.complex128), self.pristine[k]) for k in self.store)
+
+
+def gen_stored(rng, n, dt):
+    """(kind, p, mode): real-valued storage only for responses without imaginary part."""
+    mode = rng.choice(STORED_MODES)
+    fny = 0.5 / dt
+    if mode in ("float64-array", "list-of-float"):
+        kind, p = rng.choice([(6, (fny * 10.0 ** rng.uniform(-2, 0.5), rng.uniform(-2, 2), 0.0)), (5, (rng.uniform(-2, 2), 0.0, 0.0))])
+    else:
+        while True:
+            kind, p1, p2, p3 = gen_response(rng, n, dt)
+            if kind in (1, 2, 4, 5, 6):
+                p = (p1, p2, p3)
+                break
+    return kind, p, mode
+
+
+def gen_history(rng, n, times):
+    """One stored response applied several times: F(a), F(b), F(a+b), F(3a), F(a) again ..., through Signal and
+    FunctionSignal, with and without force_real in the same history."""
+    dt = times[1] - times[0]
+    kind, p, mode = gen_stored(rng, n, dt)
+    a, b = np.array(gen_values(rng, n)), np.array(gen_values(rng, n))
+    seq = [a, b, a + b, 3.0 * a, a]
+    rng.shuffle(seq)
+    seq = seq[:rng.randint(3, 5)]
+    fr0 = rng.randint(0, 1)
+    steps = []
+    for i, v in enumerate(seq):
+        fr = fr0 if rng.random() < 0.7 else 1 - fr0
+        steps.append({"target": rng.choice(["signal", "function"]), "fr": fr, "values": [float(x) for x in v]})
+    return {"op": "history", "n": n, "times": times, "kind": kind, "p": p, "mode": mode, "steps": steps, "values": steps[0]["values"]}
+
+
+def step_case(c, st):
+    if st["target"] == "signal":
+        return {"op": "filter", "n": c["n"], "times": c["times"], "values": st["values"], "fr": st["fr"], "kind": c["kind"], "p": tuple(c["p"])}
+    return {"op": "apply", "n": c["n"], "times": c["times"], "values": st["values"], "filters": [(c["kind"], tuple(c["p"]), st["fr"])]}
+
+
+def run_history(c):
+    """Apply ONE StoredResponse object step after step.  Returns ([output arrays], tables unmodified?, [tolerances])."""
+    g = StoredResponse(c["kind"], c["p"], c["mode"])
+    outs, tols = [], []
+    for st in c["steps"]:
+        if st["target"] == "signal":
+            outs.append(impl_filter(c["times"], st["values"], g, st["fr"]))
+        else:
+            outs.append(impl_function_signal(c["times"], st["values"], [(g, st["fr"])]))
+        tols.append(1e-9 * max([abs(v) for v in st["values"]] + [0.0]) * max(1.0, hmax(c["kind"], *c["p"])))
+    return outs, g.unmodified(), tols
+
+
 # ----------------------------------------------------------------------------- generators
 def gen_grid(rng, nmax, nmin=2):
     u = rng.random()
@@ -171,6 +265,12 @@ def case_line(c):
     raise ValueError(c["op"])
 
 
+def case_lines(c):
+    if c["op"] == "history":
+        return [case_line(step_case(c, st)) for st in c["steps"]]
+    return [case_line(c)]
+
+
 def run_impl(c):
     """Returns (array of floats, tolerance)."""
     import pyrex
@@ -196,7 +296,9 @@ def run_impl(c):
 
 
 def short(c):
-    d = {k: c[k] for k in ("op", "n", "fr", "kind", "p", "filters") if k in c}
+    d = {k: c[k] for k in ("op", "n", "fr", "kind", "p", "filters", "mode") if k in c}
+    if c["op"] == "history":
+        d["steps"] = [(st["target"], "force_real" if st["fr"] else "plain") for st in c["steps"]]
     if "kind" in d:
         d["response"] = KIND_NAMES[d["kind"]]
     d["dt"] = c["times"][1] - c["times"][0]
@@ -222,7 +324,9 @@ def gen_cases(ctx, count):
         dt = times[1] - times[0]
         vals = gen_values(rng, n)
         u = rng.random()
-        if u < 0.7:
+        if u < 0.14:
+            cases.append(gen_history(rng, n, times))
+        elif u < 0.7:
             k, p1, p2, p3 = gen_response(rng, n, dt)
             cases.append({"op": "filter", "n": n, "times": times, "values": vals, "fr": rng.randint(0, 1), "kind": k, "p": (p1, p2, p3)})
         elif u < 0.9:
@@ -267,15 +371,50 @@ def correspondence(ctx, exe, count):
                     c["p"] = tuple(c.get("p", (0, 0, 0)))
                     cases.append(c)
     cases += gen_cases(ctx, count)
+    lines, span = [], []
+    for c in cases:
+        ls = case_lines(c)
+        span.append((len(lines), len(lines) + len(ls)))
+        lines += ls
     try:
-        outs = dft_extract.run_lines(exe, [case_line(c) for c in cases])
+        all_outs = dft_extract.run_lines(exe, lines)
     except Exception as e:
         ctx.oblige("corr:model-run", False, str(e)[-800:])
         return
     bad = 0
     worst = 0.0
     dist = {}
-    for c, o in zip(cases, outs):
+    for c, (lo, hi) in zip(cases, span):
+        if c["op"] == "history":
+            tag = "history:%s:%s" % (KIND_NAMES[c["kind"]], c["mode"])
+            dist[tag] = dist.get(tag, 0) + 1
+            ctx.case(key=("history", c["n"], c["kind"], c["mode"], str(c["p"]), hexs(c["values"][:6]), str([(st["target"], st["fr"]) for st in c["steps"]])),
+                     nontrivial=True, sample=short(c))
+            models = [np.array(parse_floats(o), dtype=float) for o in all_outs[lo:hi]]
+            try:
+                impls, intact, tols = run_history(c)
+            except Exception as e:
+                bad += 1
+                lim.fail(tag, "corr:%s:n=%d:exception" % (tag, c["n"]), "re-applying a stored response raised %s: %s; case %s" % (type(e).__name__, e, short(c)),
+                         {"kind": "corr", "case": c})
+                continue
+            for i, (im, mo, tol) in enumerate(zip(impls, models, tols)):
+                d = float(np.max(np.abs(im - mo))) if im.shape == mo.shape and len(im) else (0.0 if im.shape == mo.shape else float("inf"))
+                if tol > 0 and d < float("inf"):
+                    worst = max(worst, d / tol)
+                if not d <= tol:
+                    bad += 1
+                    lim.fail(tag, "corr:%s:n=%d:step=%d" % (tag, c["n"], i),
+                             "application %d of the SAME stored response (%s via %s, force_real=%d) differs from the model of the pure response: |impl-model|=%.3g > %.3g "
+                             "(the result depends on how often the response object was used before); case %s"
+                             % (i + 1, c["mode"], c["steps"][i]["target"], c["steps"][i]["fr"], d, tol, short(c)), {"kind": "corr", "case": c, "step": i})
+                    break
+            if not intact:
+                bad += 1
+                lim.fail(tag + ":table", "corr:%s:n=%d:table-modified" % (tag, c["n"]),
+                         "filtering modified the caller's stored response table (%s); case %s" % (c["mode"], short(c)), {"kind": "corr", "case": c})
+            continue
+        o = all_outs[lo]
         model = np.array(parse_floats(o), dtype=float)
         try:
             impl, tol = run_impl(c)
@@ -309,7 +448,7 @@ def correspondence(ctx, exe, count):
     ctx.oblige("corr:filter-model-vs-implementation", bad == 0, "%d of %d cases disagree" % (bad, len(cases)))
     ctx.extra["correspondence"] = {"cases": len(cases), "disagreements": bad, "distribution": dist,
                                    "worst_difference_over_tolerance": worst,
-                                   "tolerance": "1e-9 * max|x| * max(1, max|H|) per sample (spectrum: * N; frequencies: exact)"}
+                                   "tolerance": "1e-9 * max|x| * max(1, max|H|) per sample (spectrum: * N; frequencies: exact); histories: every application of one stored response object against the model of the pure response, tables unmodified"}
 
 
 # ----------------------------------------------------------------------------- search probes
@@ -348,7 +487,7 @@ def probes(ctx, count, nmax):
         g = py_response(k, p1, p2, p3)
         h = hmax(k, p1, p2, p3)
         base = {"n": n, "times": times, "values": x, "values2": y, "resp": [k, p1, p2, p3], "fr": fr}
-        rel = ["linear", "homogeneous", "identity", "offset", "force_real", "passive", "delay", "function_signal"][it % 8]
+        rel = ["linear", "stateful", "homogeneous", "identity", "stateful", "offset", "force_real", "passive", "delay", "function_signal"][it % 10]
         stats[rel] = stats.get(rel, 0) + 1
         ctx.case(key=("probe", rel, n, k, fr, hexs(x[:6])), nontrivial=True,
                  sample={"probe": rel, "n": n, "dt": dt, "response": KIND_NAMES[k], "force_real": fr} if it < 8 else None)
@@ -362,6 +501,38 @@ def probes(ctx, count, nmax):
                 if not d <= tol:
                     report(rel, "n=%d" % n, "filter(a x + b y) != a filter(x) + b filter(y): max diff %.3g > %.3g (n=%d, %s, force_real=%d)"
                            % (d, tol, n, KIND_NAMES[k], fr), dict(base, a=a, b=b))
+            elif rel == "stateful":
+                # ONE response object that keeps and re-issues its table, used for every application below
+                kk, q, mode = gen_stored(rng, n, dt)
+                st = StoredResponse(kk, q, mode)
+                pure = py_response(kk, *q)
+                hh = hmax(kk, *q)
+                via = [rng.choice(["signal", "function"]) for _ in range(6)]
+                frs = [fr if rng.random() < 0.75 else 1 - fr for _ in range(6)]
+                frs[1] = frs[2] = frs[3] = frs[4] = frs[0]      # the linearity group shares one setting
+
+                def F(v, i, resp):
+                    if via[i] == "signal":
+                        return impl_filter(times, list(v), resp, frs[i])
+                    return impl_function_signal(times, list(v), [(resp, frs[i])])
+                fa, fb, fab, f3a, fa2 = F(xa, 0, st), F(ya, 1, st), F(xa + ya, 2, st), F(3.0 * xa, 3, st), F(xa, 4, st)
+                via[5], frs[5] = via[0], frs[0]
+                fa3 = F(xa, 5, st)
+                nx = np.linalg.norm(xa) + np.linalg.norm(ya)
+                tol = 6 * probe_tol(n, nx, hh)
+                checks = [("F(a)+F(b) = F(a+b)", float(np.max(np.abs(fa + fb - fab)))),
+                          ("F(3a) = 3F(a)", float(np.max(np.abs(f3a - 3.0 * fa2)))),
+                          ("F(a) repeated (same path, same force_real) = F(a)", float(np.max(np.abs(fa3 - fa)))),
+                          ("F(a) with the stored response = F(a) with the freshly computed one", float(np.max(np.abs(fa - F(xa, 0, pure))))),
+                          ("later F(a) with the stored response = fresh", float(np.max(np.abs(fa2 - F(xa, 4, pure)))))]
+                worst_name, worst_d = max(checks, key=lambda t: t[1])
+                hist = dict(base, resp=[kk] + list(q), mode=mode, via=via, frs=frs)
+                if not worst_d <= tol:
+                    report(rel, "n=%d" % n, "re-using one stored response object (%s, %s): %s violated by %.3g > %.3g (n=%d, paths %s, force_real %s)"
+                           % (mode, KIND_NAMES[kk], worst_name, worst_d, tol, n, via, frs), hist)
+                if not st.unmodified():
+                    report(rel + "-table", "n=%d:table" % n, "filtering modified the caller's stored response table (%s, %s, n=%d, force_real %s)"
+                           % (mode, KIND_NAMES[kk], n, frs), hist)
             elif rel == "homogeneous":
                 c = rng.uniform(-3, 3)
                 gc = (lambda f, g=g, c=c: c * g(f))
@@ -527,6 +698,26 @@ def replay(ctx, obj):
     if obj.get("broken"):
         print("no concrete input: broken obligations", obj["broken"])
         return 1
+    if obj.get("kind") == "corr" and obj["case"].get("op") == "history":
+        c = obj["case"]
+        c["p"] = tuple(c["p"])
+        print("one stored response object (%s, %s%r) applied %d times; case %s" % (c["mode"], KIND_NAMES[c["kind"]], c["p"], len(c["steps"]), short(c)))
+        impls, intact, tols = run_history(c)
+        ctx.coq_build("C05")
+        exe = dft_extract.build(ctx, "c05", EXTRACT_REQ, EXTRACT_CMD, "filt", "c05_driver.ml")
+        rc = 0
+        if exe:
+            outs = dft_extract.run_lines(exe, case_lines(c))
+            for i, (im, o, tol) in enumerate(zip(impls, outs, tols)):
+                mo = np.array(parse_floats(o))
+                d = float(np.max(np.abs(im - mo))) if im.shape == mo.shape else float("inf")
+                print("application %d (%s, force_real=%d): max |impl-model| = %.3g, tolerance %.3g -> %s"
+                      % (i + 1, c["steps"][i]["target"], c["steps"][i]["fr"], d, tol, "AGREE" if d <= tol else "DISAGREE"))
+                if not d <= tol:
+                    print("  implementation:", im[:8], "\n  model         :", mo[:8])
+                    rc = 1
+        print("stored response table unmodified afterwards:", intact)
+        return rc or (0 if intact else 1)
     if obj.get("kind") == "corr":
         c = obj["case"]
         if "p" in c:
@@ -557,6 +748,19 @@ def replay(ctx, obj):
         g = py_response(int(k), p1, p2, p3)
         xa = np.array(x)
         print("relation %s, n=%d, dt=%r, response=%s%r, force_real=%d" % (rel, n, times[1] - times[0], KIND_NAMES[int(k)], (p1, p2, p3), fr))
+        if rel in ("stateful", "stateful-table"):
+            st = StoredResponse(int(k), (p1, p2, p3), obj["mode"])
+            pure = py_response(int(k), p1, p2, p3)
+            via, frs, rc = obj["via"], obj["frs"], 0
+            tol = 6 * probe_tol(n, np.linalg.norm(xa) + np.linalg.norm(np.array(obj["values2"])), hmax(int(k), p1, p2, p3))
+            seq = [xa, np.array(obj["values2"]), xa + np.array(obj["values2"]), 3.0 * xa, xa, xa]
+            for i, v in enumerate(seq):
+                f = (lambda r: impl_filter(times, list(v), r, frs[i]) if via[i] == "signal" else impl_function_signal(times, list(v), [(r, frs[i])]))
+                d = float(np.max(np.abs(f(st) - f(pure))))
+                print("application %d (%s, force_real=%d): stored vs freshly computed response differ by %.3g (tolerance %.3g)" % (i + 1, via[i], frs[i], d, tol))
+                rc = rc or (1 if d > tol else 0)
+            print("stored response table unmodified afterwards:", st.unmodified())
+            return rc or (0 if st.unmodified() else 1)
         if rel == "delay":
             m = obj["m"]
             out = impl_filter(times, x, py_response(1, m * (times[1] - times[0]), 0, 0), fr)
